@@ -282,7 +282,7 @@ package bt
 //@ func bt.(*Tx).SizeWithTypes
 //@   opt defs data_sum
 //@   requires (spec.out_scripts_nonnil tx) (spec.inputs_nonnil tx)
-//@   requires (forall ((k Int)) (=> (and (<= 0 k) (<= k (len (. tx Outputs)))) (and (<= 0 (spec.data_bytes_k tx k)) (<= (spec.data_bytes_k tx k) 281474976710656))))
+//@   int-overflow check
 //@   fresh result
 //@   ensures[C11.size_data_bytes] (and (not (nil? result)) (= (. result TotalDataBytes) (old (spec.data_bytes tx))))
 //@   ensures[C11.size_split] (=> (<= (old (spec.data_bytes tx)) (. result TotalBytes)) (= (+ (. result TotalStdBytes) (. result TotalDataBytes)) (. result TotalBytes)))
